@@ -198,7 +198,8 @@ Lemma div_fast_total p x y : in_i32 x -> in_i32 y -> is_panic (div_fast_i32 p x 
 Proof.
   intros Hx Hy. unfold div_fast_i32.
   destruct (i32_checked_div x y) as [d|] eqn:Hd; cbn [opt_filter_m bind].
-  - rewrite (i32_mul_after_checked_div p x y d Hx Hd). cbn [bind]. destruct (y * d =? x); reflexivity.
+  - rewrite (i32_mul_after_checked_div p x y d Hx Hd). cbn [bind].
+    repeat match goal with |- context [if ?b then _ else _] => destruct b end; reflexivity.
   - reflexivity.
 Qed.
 
@@ -206,7 +207,8 @@ Lemma div_ops_total p x y : in_i32 x -> in_i32 y -> is_panic (div_ops_i32 p x y)
 Proof.
   intros Hx Hy. unfold div_ops_i32.
   destruct (i32_checked_div x y) as [d|] eqn:Hd; cbn [opt_filter_m bind].
-  - rewrite (i32_mul_after_checked_div p x y d Hx Hd). cbn [bind]. destruct (y * d =? x); reflexivity.
+  - rewrite (i32_mul_after_checked_div p x y d Hx Hd). cbn [bind].
+    repeat match goal with |- context [if ?b then _ else _] => destruct b end; reflexivity.
   - reflexivity.
 Qed.
 
@@ -261,14 +263,25 @@ Proof. intros p n H. split; [exact (inc_spec p n H) | exact (dec_spec p n H)]. Q
 
 Definition fI (z : Z) : fexp := FofI32 z.
 
-Definition spec_val (op : binop) (x y : Z) : jsval :=
+(* `/`: the Integer32 result needs an exact division and, where the arm filters it, no negative zero
+   (0 / negative is -0).  Whether an arm has that filter is read off the regenerated definition itself
+   (by computation on the witness 0 / -1), so the closed form follows the source arm by arm. *)
+Definition div_spec (nz : bool) (x y : Z) : jsval :=
+  if negb (y =? 0) && negb ((x =? i32_min) && (y =? -1)) && (Z.rem x y =? 0)
+     && (negb nz || negb (x =? 0) || (0 <? y))
+  then JInt (Z.quot x y) else JF64 (FDiv (fI x) (fI y)).
+Definition fast_div_nz : bool :=
+  match run_fast Debug Div 0 (-1) with Ok (Some (JInt _)) => false | _ => true end.
+Definition ops_div_nz : bool :=
+  match run_ops Debug Div 0 (-1) with Ok (JInt _) => false | _ => true end.
+
+Definition spec_gen (nz : bool) (op : binop) (x y : Z) : jsval :=
   match op with
   | Add => if in_i32b (x + y) then JInt (x + y) else JF64 (FAdd (fI x) (fI y))
   | Sub => if in_i32b (x - y) then JInt (x - y) else JF64 (FSub (fI x) (fI y))
   | Mul => if in_i32b (x * y) && (negb (x * y =? 0) || (0 <=? Z.min x y))
            then JInt (x * y) else JF64 (FMul (fI x) (fI y))
-  | Div => if negb (y =? 0) && negb ((x =? i32_min) && (y =? -1)) && (Z.rem x y =? 0)
-           then JInt (Z.quot x y) else JF64 (FDiv (fI x) (fI y))
+  | Div => div_spec nz x y
   | Rem => if y =? 0 then JF64 FNaN
            else if (Z.rem x y =? 0) && (x <? 0) then JF64 FNegZero else JInt (Z.rem x y)
   | Pow => if (0 <=? y) && in_i32b (x ^ y) then JInt (x ^ y) else JF64 (FPowi (fI x) y)
@@ -279,6 +292,8 @@ Definition spec_val (op : binop) (x y : Z) : jsval :=
   | Lt => JBool (x <? y) | Le => JBool (x <=? y) | Gt => JBool (y <? x) | Ge => JBool (y <=? x)
   | Eq => JBool (x =? y) | Ne => JBool (negb (x =? y))
   end.
+Definition spec_val : binop -> Z -> Z -> jsval := spec_gen fast_div_nz.   (* the `*_fast` helpers *)
+Definition spec_ops : binop -> Z -> Z -> jsval := spec_gen ops_div_nz.    (* the JsValue::<op> arms *)
 
 Lemma mod32_u32 y : (y mod 4294967296) mod 32 = y mod 32.
 Proof.
@@ -295,43 +310,63 @@ Proof.
   destruct (Z.eqb_spec (y * Z.quot x y) x), (Z.eqb_spec (Z.rem x y) 0); try reflexivity; exfalso; lia.
 Qed.
 
-Lemma spec_add p x y : add_fast_i32 p x y = Ok (Some (spec_val Add x y)) /\ add_ops_i32 p x y = Ok (spec_val Add x y).
-Proof. unfold add_fast_i32, add_ops_i32, spec_val, i32_checked_add, checked. destruct (in_i32b (x + y)); split; reflexivity. Qed.
+Lemma spec_add p x y : add_fast_i32 p x y = Ok (Some (spec_gen true Add x y)) /\ add_ops_i32 p x y = Ok (spec_gen true Add x y).
+Proof. unfold add_fast_i32, add_ops_i32, spec_gen, i32_checked_add, checked. destruct (in_i32b (x + y)); split; reflexivity. Qed.
 
-Lemma spec_sub p x y : sub_fast_i32 p x y = Ok (Some (spec_val Sub x y)) /\ sub_ops_i32 p x y = Ok (spec_val Sub x y).
-Proof. unfold sub_fast_i32, sub_ops_i32, spec_val, i32_checked_sub, checked. destruct (in_i32b (x - y)); split; reflexivity. Qed.
+Lemma spec_sub p x y : sub_fast_i32 p x y = Ok (Some (spec_gen true Sub x y)) /\ sub_ops_i32 p x y = Ok (spec_gen true Sub x y).
+Proof. unfold sub_fast_i32, sub_ops_i32, spec_gen, i32_checked_sub, checked. destruct (in_i32b (x - y)); split; reflexivity. Qed.
 
-Lemma spec_mul p x y : mul_fast_i32 p x y = Ok (Some (spec_val Mul x y)) /\ mul_ops_i32 p x y = Ok (spec_val Mul x y).
+Lemma spec_mul p x y : mul_fast_i32 p x y = Ok (Some (spec_gen true Mul x y)) /\ mul_ops_i32 p x y = Ok (spec_gen true Mul x y).
 Proof.
-  unfold mul_fast_i32, mul_ops_i32, spec_val, i32_checked_mul, checked.
+  unfold mul_fast_i32, mul_ops_i32, spec_gen, i32_checked_mul, checked.
   destruct (in_i32b (x * y)); cbn [opt_filter opt_map_or_else andb]; [|split; reflexivity].
   replace (Z.min x y >=? 0) with (0 <=? Z.min x y) by (rewrite Z.geb_leb; reflexivity).
   destruct (negb (x * y =? 0) || (0 <=? Z.min x y)); split; reflexivity.
 Qed.
 
-Lemma spec_div p x y : in_i32 x -> in_i32 y ->
-  div_fast_i32 p x y = Ok (Some (spec_val Div x y)) /\ div_ops_i32 p x y = Ok (spec_val Div x y).
+Lemma div_gt_lt y : (y >? 0) = (0 <? y).
+Proof. rewrite Z.gtb_ltb. reflexivity. Qed.
+
+(* one script for both arms and both filter shapes *)
+Ltac div_arm p x y Hx :=
+  let d := fresh "d" in let Hd := fresh "Hd" in
+  destruct (i32_checked_div x y) as [d|] eqn:Hd; cbn [opt_filter_m bind];
+  [ rewrite (i32_mul_after_checked_div p x y d Hx Hd); cbn [bind];
+    let Hy0 := fresh "Hy0" in let Hg := fresh "Hg" in
+    apply checked_div_some in Hd as (Hy0 & Hg & ->);
+    rewrite (div_exact_iff x y Hy0);
+    let E1 := fresh "E1" in let E2 := fresh "E2" in
+    assert (E1 : (y =? 0) = false) by (apply Z.eqb_neq; exact Hy0);
+    assert (E2 : ((x =? i32_min) && (y =? -1)) = false)
+      by (destruct (Z.eqb_spec x i32_min), (Z.eqb_spec y (-1)); try reflexivity; exfalso; apply Hg; split; assumption);
+    unfold div_spec; rewrite E1, E2, ?div_gt_lt; cbn [negb andb orb];
+    destruct (Z.rem x y =? 0), (x =? 0), (0 <? y); reflexivity
+  | apply checked_div_none in Hd; cbn [opt_map_or_else bind]; unfold div_spec;
+    let E := fresh "E" in
+    assert (E : negb (y =? 0) && negb ((x =? i32_min) && (y =? -1)) = false)
+      by (destruct Hd as [->|[-> ->]]; reflexivity);
+    rewrite E; reflexivity ].
+
+Lemma spec_div_fast p x y : in_i32 x -> in_i32 y ->
+  div_fast_i32 p x y = Ok (Some (div_spec fast_div_nz x y)).
 Proof.
-  intros Hx Hy. unfold div_fast_i32, div_ops_i32, spec_val.
-  destruct (i32_checked_div x y) as [d|] eqn:Hd; cbn [opt_filter_m bind].
-  - rewrite (i32_mul_after_checked_div p x y d Hx Hd). cbn [bind].
-    apply checked_div_some in Hd as (Hy0 & Hg & ->).
-    rewrite (div_exact_iff x y Hy0).
-    assert (E1 : (y =? 0) = false) by (apply Z.eqb_neq; exact Hy0).
-    assert (E2 : ((x =? i32_min) && (y =? -1)) = false).
-    { destruct (Z.eqb_spec x i32_min), (Z.eqb_spec y (-1)); try reflexivity. exfalso; apply Hg; split; assumption. }
-    rewrite E1, E2. cbn [negb andb].
-    destruct (Z.rem x y =? 0); split; reflexivity.
-  - apply checked_div_none in Hd. cbn [opt_map_or_else bind].
-    assert (E : negb (y =? 0) && negb ((x =? i32_min) && (y =? -1)) = false).
-    { destruct Hd as [->|[-> ->]]; reflexivity. }
-    rewrite E. split; reflexivity.
+  intros Hx Hy.
+  first [ change fast_div_nz with false; unfold div_fast_i32; div_arm p x y Hx
+        | change fast_div_nz with true; unfold div_fast_i32; div_arm p x y Hx ].
+Qed.
+
+Lemma spec_div_ops p x y : in_i32 x -> in_i32 y ->
+  div_ops_i32 p x y = Ok (div_spec ops_div_nz x y).
+Proof.
+  intros Hx Hy.
+  first [ change ops_div_nz with false; unfold div_ops_i32; div_arm p x y Hx
+        | change ops_div_nz with true; unfold div_ops_i32; div_arm p x y Hx ].
 Qed.
 
 Lemma spec_rem p x y : in_i32 x -> in_i32 y -> ~ (x = i32_min /\ y = -1) ->
-  rem_fast_i32 p x y = Ok (Some (spec_val Rem x y)) /\ rem_ops_i32 p x y = Ok (spec_val Rem x y).
+  rem_fast_i32 p x y = Ok (Some (spec_gen true Rem x y)) /\ rem_ops_i32 p x y = Ok (spec_gen true Rem x y).
 Proof.
-  intros Hx Hy Hg. unfold rem_fast_i32, rem_ops_i32, spec_val.
+  intros Hx Hy Hg. unfold rem_fast_i32, rem_ops_i32, spec_gen.
   first
     [ (* tree with the raw `%` *)
       destruct (Z.eqb_spec y 0) as [->|Hy0]; [split; reflexivity|];
@@ -346,9 +381,9 @@ Proof.
 Qed.
 
 Lemma spec_pow p x y : in_i32 x -> in_i32 y ->
-  pow_fast_i32 p x y = Ok (Some (spec_val Pow x y)) /\ pow_ops_i32 p x y = Ok (spec_val Pow x y).
+  pow_fast_i32 p x y = Ok (Some (spec_gen true Pow x y)) /\ pow_ops_i32 p x y = Ok (spec_gen true Pow x y).
 Proof.
-  intros Hx Hy. unfold pow_fast_i32, pow_ops_i32, spec_val, u32_try_from_i32.
+  intros Hx Hy. unfold pow_fast_i32, pow_ops_i32, spec_gen, u32_try_from_i32.
   destruct (0 <=? y) eqn:E0; cbn [opt_and_then andb]; [|split; reflexivity].
   apply Z.leb_le in E0.
   rewrite (checked_pow_spec x y Hx) by (unfold in_i32, i32_min, i32_max, u32_max in *; lia).
@@ -362,32 +397,32 @@ Lemma shr_is_div x c : 0 <= c -> Z.shiftr x c = x / 2 ^ c.
 Proof. intros. apply Z.shiftr_div_pow2. assumption. Qed.
 
 Lemma slow_path_lemma : forall p op x y, in_i32 x -> in_i32 y -> ~ known_gap op x y ->
-  run_fast p op x y = Ok (Some (spec_val op x y)) /\ run_ops p op x y = Ok (spec_val op x y).
+  run_fast p op x y = Ok (Some (spec_val op x y)) /\ run_ops p op x y = Ok (spec_ops op x y).
 Proof.
   intros p op x y Hx Hy Hg.
   pose proof (mod32_range y) as R.
-  destruct op; cbn [run_fast run_ops].
+  unfold spec_gen, spec_ops. destruct op; cbn [run_fast run_ops].
   - apply spec_add.
   - apply spec_sub.
   - apply spec_mul.
-  - apply spec_div; assumption.
+  - split; [apply spec_div_fast | apply spec_div_ops]; assumption.
   - apply spec_rem; try assumption. intros [A B]. apply Hg. repeat split; assumption.
   - apply spec_pow; assumption.
   - split; reflexivity.
   - split; reflexivity.
   - split; reflexivity.
-  - unfold shl_fast_i32, shl_ops_i32, spec_val, i32_wrapping_shl, i32_as_u32.
+  - unfold shl_fast_i32, shl_ops_i32, spec_gen, i32_wrapping_shl, i32_as_u32.
     rewrite mod32_u32, shl_is_mul by lia. split; reflexivity.
-  - unfold shr_fast_i32, shr_ops_i32, spec_val, i32_wrapping_shr, i32_as_u32.
+  - unfold shr_fast_i32, shr_ops_i32, spec_gen, i32_wrapping_shr, i32_as_u32.
     rewrite mod32_u32, shr_is_div by lia. split; reflexivity.
-  - unfold ushr_fast_i32, ushr_ops_i32, spec_val, u32_wrapping_shr, i32_as_u32, js_new_u32.
+  - unfold ushr_fast_i32, ushr_ops_i32, spec_gen, u32_wrapping_shr, i32_as_u32, js_new_u32.
     rewrite mod32_u32, shr_is_div by lia. split; reflexivity.
   - split; reflexivity.
-  - unfold le_fast_i32, relation_ops_i32, spec_val, opt_map, bind. split; [reflexivity|].
+  - unfold le_fast_i32, relation_ops_i32, spec_gen, opt_map, bind. split; [reflexivity|].
     f_equal. f_equal. rewrite Z.leb_antisym. reflexivity.
-  - unfold gt_fast_i32, relation_ops_i32, spec_val, opt_map, bind. split; [|reflexivity].
+  - unfold gt_fast_i32, relation_ops_i32, spec_gen, opt_map, bind. split; [|reflexivity].
     rewrite Z.gtb_ltb. reflexivity.
-  - unfold ge_fast_i32, relation_ops_i32, spec_val, opt_map, bind. split.
+  - unfold ge_fast_i32, relation_ops_i32, spec_gen, opt_map, bind. split.
     + rewrite Z.geb_leb. reflexivity.
     + f_equal. f_equal. rewrite Z.leb_antisym. reflexivity.
   - split; reflexivity.
@@ -457,17 +492,18 @@ Proof.
   set (q := Z.quot x y) in *. clearbody q. nia.
 Qed.
 
-Lemma spec_int_in_range op x y z : in_i32 x -> in_i32 y -> spec_val op x y = JInt z -> in_i32 z.
+Lemma spec_int_in_range nz op x y z : in_i32 x -> in_i32 y -> spec_gen nz op x y = JInt z -> in_i32 z.
 Proof.
   intros Hx Hy. pose proof (mod32_range y) as R.
-  destruct op; unfold spec_val.
+  destruct op; unfold spec_gen, div_spec.
   - destruct (in_i32b (x + y)) eqn:E; [|discriminate]. intros [= <-]. apply in_i32b_true. exact E.
   - destruct (in_i32b (x - y)) eqn:E; [|discriminate]. intros [= <-]. apply in_i32b_true. exact E.
   - destruct (in_i32b (x * y)) eqn:E; cbn [andb]; [|discriminate].
     destruct (negb (x * y =? 0) || (0 <=? Z.min x y)); [|discriminate]. intros [= <-]. apply in_i32b_true. exact E.
   - destruct (Z.eqb_spec y 0) as [|Hy0]; cbn [negb andb]; [discriminate|].
     destruct ((x =? i32_min) && (y =? -1)) eqn:E; cbn [negb andb]; [discriminate|].
-    destruct (Z.rem x y =? 0) eqn:E2; [|discriminate]. intros [= <-].
+    destruct (Z.rem x y =? 0) eqn:E2; cbn [andb]; [|discriminate].
+    destruct (negb nz || negb (x =? 0) || (0 <? y)); [|discriminate]. intros [= <-].
     apply Z.eqb_eq in E2. apply quot_exact_in_range; try assumption.
     intros [A B]. subst. discriminate E.
   - destruct (y =? 0) eqn:E0; [discriminate|]. apply Z.eqb_neq in E0.
